@@ -31,7 +31,7 @@ type c15K struct {
 
 func checkC15(c *Ctx) {
 	r, p := c.R, c.P
-	r.Explanation = "Decides structural necessary conditions of C15 on ttlcache/ttlcache.go. (U1) every return of Cache.Get that can report ok=true is reached only under `entry.exp > clock.Now()` (strict), where entry is the result of the lookup on Cache.m made in that Get and Now() is a reading of the cache's own clock taken during that Get; (U2) in Cache.Set every returning path stores into Cache.m, the stored expiry is clock.Now().Add(T*time.Second) with Now() read from the cache's clock in Set, and on every path T is ttl (only where maxTTL<=0 or ttl<=maxTTL is known) or maxTTL (only where maxTTL>0 and ttl>=maxTTL is known), i.e. T=min(ttl,maxTTL) when a cap is configured; NewCache wires CacheOptions.MaxTTL into Cache.maxTTL; (U3) every key that Cleanup hands to a delete was collected from the ForEach callback's own key parameter under `clock.Now() >(=) that entry's exp` with Now() read from the cache clock during Cleanup; the background goroutine mutates the map only by calling Cleanup; (U4) every return of Stop is preceded by a receive on Cache.runningCh; Stop closes Cache.stopCh and not after waiting; runningCh is closed only by the function started with `go`, on every exit of it, with no cleaning after the close; every wait of that goroutine is a select with a Cache.stopCh case that leaves the loop; runningCh is created before the goroutine starts and NewCache always starts it; (U5) Delete always deletes from Cache.m; Reset's ForEach callback collects every key and never stops the iteration, and the collected keys are deleted; (U6) Cache.m is mutated only by the audited sites, and Get/Set/Delete pass their key parameter unchanged to the map (a transformation at only some of them is UNDECIDED); the entry stored by Set carries Set's value parameter. NOT decided: the history-level claim itself (it rests on haxmap's linearizable Get/Set/Del semantics and on the documented cleanup/refresh race, neither analysed); that the value returned is the most recently Set one under concurrency; behaviour for ttl<=0 (outside the quantifier: NOTE only); overflow of ttl*time.Second for ttl > ~292 years; that the periodic cleaner actually runs Cleanup (not needed by the statement: Get checks expiry itself)."
+	r.Explanation = "Decides structural necessary conditions of C15 on ttlcache/ttlcache.go. (U1) every return of Cache.Get that can report ok=true is reached only under `entry.exp > clock.Now()` (strict), where entry is the result of the lookup on Cache.m made in that Get and Now() is a reading of the cache's own clock taken during that Get; (U2) in Cache.Set every returning path stores into Cache.m, the stored expiry is, on every path, clock.Now().Add(T*time.Second) with Now() read from the cache's clock in Set (an expiry taken from an existing entry — kept, later-of — is a violation), and on every path T is ttl (only where maxTTL<=0 or ttl<=maxTTL is known) or maxTTL (only where maxTTL>0 and ttl>=maxTTL is known), i.e. T=min(ttl,maxTTL) when a cap is configured; NewCache wires CacheOptions.MaxTTL into Cache.maxTTL; (U3) every key that Cleanup hands to a delete was collected from the ForEach callback's own key parameter under `clock.Now() >(=) that entry's exp` with Now() read from the cache clock during Cleanup; the background goroutine mutates the map only by calling Cleanup — directly or through a method value / func variable / phi of them, all of whose possible targets are resolved — and starts nothing that can mutate the map with `go` (a detached Cleanup outlives the close of runningCh); (U4) every return of Stop is preceded by a receive on Cache.runningCh; Stop closes Cache.stopCh and not after waiting; runningCh is closed only by the function started with `go`, on every exit of it, with no cleaning after the close; every wait of that goroutine is a select with a Cache.stopCh case that leaves the loop; runningCh is created before the goroutine starts and NewCache always starts it; (U5) Delete always deletes from Cache.m; Reset's ForEach callback collects every key and never stops the iteration, and the collected keys are deleted; (U6) Cache.m is mutated only by the audited sites, and Get/Set/Delete pass their key parameter unchanged to the map (a transformation at only some of them is UNDECIDED); the entry stored by Set carries Set's value parameter. NOT decided: the history-level claim itself (it rests on haxmap's linearizable Get/Set/Del semantics and on the documented cleanup/refresh race, neither analysed); that the value returned is the most recently Set one under concurrency; behaviour for ttl<=0 (outside the quantifier: NOTE only); overflow of ttl*time.Second for ttl > ~292 years; that the periodic cleaner actually runs Cleanup (not needed by the statement: Get checks expiry itself)."
 	r.Assumptions = append(r.Assumptions,
 		"haxmap.Map Get/Set/Del/ForEach have their documented map semantics (ForEach stops when the callback returns false)",
 		"time.Time.After/Before/Equal/Compare/Sub/Add have their documented meaning; clock.Now() of k8s.io/utils/clock returns the cache clock's current time",
@@ -44,10 +44,11 @@ func checkC15(c *Ctx) {
 	r.Rule("C15.U2-set-value", "the entry stored by Set carries Set's value parameter", 1)
 	r.Rule("C15.U2-wire-maxttl", "NewCache stores CacheOptions.MaxTTL into Cache.maxTTL", 1)
 	r.Rule("C15.U3-cleanup-expired-only", "every key deleted by Cleanup was collected under clock.Now() >(=) entry.exp for that key's own entry", 1)
-	r.Rule("C15.U3-periodic-via-cleanup", "the background goroutine mutates Cache.m only through Cache.Cleanup", 1)
+	r.Rule("C15.U3-periodic-via-cleanup", "every possible target (direct, method value, func variable, phi) of a mutating call in the background goroutine is Cache.Cleanup", 1)
 	r.Rule("C15.U4-stop-waits", "every return of Stop is preceded by a receive on Cache.runningCh", 1)
 	r.Rule("C15.U4-stop-signals", "Stop closes Cache.stopCh, and never after having waited on runningCh", 1)
 	r.Rule("C15.U4-cleaner-exit", "runningCh is closed only by the goroutine body, on every exit, and nothing cleans after the close", 1)
+	r.Rule("C15.U4-cleaner-synchronous", "inside the cleaner goroutine (and inside Cleanup) nothing that can mutate Cache.m is started with go", 1)
 	r.Rule("C15.U4-cleaner-stopcase", "every wait of the cleaner goroutine is a select with a Cache.stopCh case that leaves the loop", 1)
 	r.Rule("C15.U4-cleaner-start", "runningCh is created before the cleaner is started and NewCache always starts it", 1)
 	r.Rule("C15.U5-delete", "every return of Delete is preceded by a delete of the key from Cache.m", 1)
@@ -584,6 +585,12 @@ func c15CapRule(p *Prog, r *Report, x *c15X, set *ssa.Function, capRule, expRule
 			if !isTime || name != "Add" || len(args) != 2 {
 				if t := x.term(ec.V, ec.Env); t.Kind == c15Now || t.Kind == c15WallNow {
 					expBad = "the stored expiry is the current time itself: the TTL is not added"
+				} else if t.Kind == c15Exp {
+					known := strings.Join(ec.Facts.list(), ", ")
+					if known == "" {
+						known = "nothing"
+					}
+					expBad = "on some path the expiry stored with the new value is not clock.Now()+T*time.Second but the expiry read from an existing entry (kept / later-of / earlier-of; known on that path: " + known + "): the value most recently Set then lives for a time other than its own TTL — e.g. Set(k,v1,10); Set(k,v2,2) and Get still returns v2 after 2 s (or, if the older expiry is earlier, Cleanup removes v2 before its TTL has elapsed)"
 				} else {
 					expUndec = "the stored expiry is not of the form <time>.Add(<duration>)"
 				}
@@ -1288,11 +1295,35 @@ func (k *c15K) checkStop() {
 			r.OK("C15.U4-cleaner-exit", gname+" closes runningCh on exit", p.Pos(g.Pos()), "runningCh is closed on every exit of the goroutine body, after its last cleaning step")
 		}
 
-		// periodic cleaning goes through Cleanup only
+		// periodic cleaning goes through Cleanup only, synchronously
 		{
 			badCall, badPos := "", ""
+			detached, detachedPos := "", ""
+			var unresolved []string
+			hasJoin := false
 			seenF := map[*ssa.Function]bool{}
 			var walk func(f *ssa.Function)
+			// visit one possible callee h of call site in
+			visit := func(h *ssa.Function, in ssa.Instruction, how string) {
+				h = k.unwrapFn(h)
+				if h == nil || h.Pkg == nil || h.Pkg.Pkg.Path() != k.pkg {
+					return
+				}
+				if _, isGo := in.(*ssa.Go); isGo && k.reachesMutation(h, map[*ssa.Function]bool{}) {
+					detached, detachedPos = FuncName(p, h)+how, p.Pos(instrPos(in))
+				}
+				if cleanup != nil && h == origin(cleanup) {
+					return // audited by U3
+				}
+				if isExportedFunc(h) {
+					switch h.Name() {
+					case "Reset", "Delete", "Set":
+						badCall, badPos = FuncName(p, h)+how, p.Pos(instrPos(in))
+					}
+					return
+				}
+				walk(h)
+			}
 			walk = func(f *ssa.Function) {
 				f = origin(f)
 				if f == nil || seenF[f] || len(f.Blocks) == 0 {
@@ -1307,35 +1338,83 @@ func (k *c15K) checkStop() {
 					if !ok {
 						return
 					}
+					if callIs(ci, "sync", "WaitGroup", "Wait") {
+						hasJoin = true
+					}
 					if _, isMap := k.mapCall(in, ""); isMap {
 						switch name := calleeObj(ci).Name(); name {
 						case "Get", "ForEach", "Len", "Fillrate", "Grow":
 						default:
 							badCall, badPos = "Map."+name+" on Cache.m", p.Pos(instrPos(in))
+							if _, isGo := in.(*ssa.Go); isGo {
+								detached, detachedPos = "Map."+name+" on Cache.m", p.Pos(instrPos(in))
+							}
 						}
 						return
 					}
-					h := staticCallee(ci)
-					if h == nil || h.Pkg == nil || h.Pkg.Pkg.Path() != k.pkg {
+					cc := ci.Common()
+					if cc.IsInvoke() || builtinName(ci) != "" {
+						return // clock / ticker interface methods, builtins
+					}
+					if h := staticCallee(ci); h != nil {
+						visit(h, in, "")
 						return
 					}
-					if cleanup != nil && h == origin(cleanup) {
-						return // audited by U3
+					// a call through a func value: every possible target counts
+					targets, unknown := k.funcTargets(cc.Value, 0)
+					if unknown {
+						unresolved = append(unresolved, p.Pos(instrPos(in)))
 					}
-					if isExportedFunc(h) {
-						switch h.Name() {
-						case "Reset", "Delete", "Set":
-							badCall, badPos = FuncName(p, h), p.Pos(instrPos(in))
-						}
-						return
+					for _, h := range targets {
+						visit(h, in, " (through a func value)")
 					}
-					walk(h)
 				})
 			}
 			walk(g)
-			r.Check(badCall == "", "C15.U3-periodic-via-cleanup", gname+" mutates the cache only through Cleanup", p.Pos(g.Pos()),
-				"the background goroutine removes entries only by calling Cache.Cleanup (audited by U3)",
-				"the background goroutine calls "+badCall+" (at "+badPos+"): the periodic cleaner removes or rewrites entries other than through the expired-only Cleanup, so live entries of keys nobody touched disappear")
+			// a Cleanup that detaches its own deletions is part of the cleaner too
+			if cleanup != nil {
+				for _, f := range k.family(cleanup) {
+					allInstrs(f, func(in ssa.Instruction) {
+						gi, ok := in.(*ssa.Go)
+						if !ok {
+							return
+						}
+						if _, isMap := k.mapCall(in, ""); isMap {
+							detached, detachedPos = "a map operation of Cleanup", p.Pos(instrPos(in))
+							return
+						}
+						ts := []*ssa.Function{staticCallee(gi)}
+						if ts[0] == nil {
+							ts, _ = k.funcTargets(gi.Call.Value, 0)
+						}
+						for _, h := range ts {
+							if h = k.unwrapFn(h); h != nil && k.reachesMutation(h, map[*ssa.Function]bool{}) {
+								detached, detachedPos = FuncName(p, h)+" (spawned inside Cleanup)", p.Pos(instrPos(in))
+							}
+						}
+					})
+				}
+			}
+			switch {
+			case badCall != "":
+				r.Violation("C15.U3-periodic-via-cleanup", gname+" mutates the cache only through Cleanup", badPos,
+					"the background goroutine can call "+badCall+" (at "+badPos+"): the periodic cleaner removes or rewrites entries other than through the expired-only Cleanup, so live entries of keys nobody touched disappear (e.g. a key Set shortly before the tick)")
+			case len(unresolved) > 0:
+				r.Undecide("%s: a call through a func value at %s has targets that cannot be resolved; cannot decide that the periodic cleaner mutates the cache only through Cleanup", gname, strings.Join(unresolved, ", "))
+			default:
+				r.OK("C15.U3-periodic-via-cleanup", gname+" mutates the cache only through Cleanup", p.Pos(g.Pos()),
+					"every call of the background goroutine that can mutate Cache.m — direct, through a method value, a func variable or a phi of them — resolves to Cache.Cleanup (audited by U3)")
+			}
+			switch {
+			case detached != "" && hasJoin:
+				r.Undecide("%s: %s is started with `go` at %s inside the cleaner and a WaitGroup.Wait is present; whether it is joined before runningCh is closed is not analysed", gname, detached, detachedPos)
+			case detached != "":
+				r.Violation("C15.U4-cleaner-synchronous", gname+" cleans synchronously", detachedPos,
+					"the cleaner starts "+detached+" with `go` (at "+detachedPos+") and never joins it: when Cache.stopCh is closed the loop exits and closes Cache.runningCh while that detached goroutine may still be scanning and deleting — Stop returns before the background cleaning has ended")
+			default:
+				r.OK("C15.U4-cleaner-synchronous", gname+" cleans synchronously", p.Pos(g.Pos()),
+					"no call that can reach a mutation of Cache.m is started with `go` inside the cleaner (or inside Cleanup)")
+			}
 		}
 
 		// stop case in every wait
@@ -1439,6 +1518,123 @@ func (k *c15K) checkStop() {
 			}
 		}
 	}
+}
+
+// unwrapFn maps bound-method / thunk / instantiation wrappers to the
+// (origin of the) declared method they stand for.
+func (k *c15K) unwrapFn(f *ssa.Function) *ssa.Function {
+	if f == nil {
+		return nil
+	}
+	f = origin(f)
+	if f.Synthetic != "" {
+		if obj, ok := f.Object().(*types.Func); ok && obj != nil {
+			if t := k.p.SSA.FuncValue(obj.Origin()); t != nil {
+				return origin(t)
+			}
+		}
+	}
+	return f
+}
+
+// funcTargets resolves the functions a func value can denote: a function, a
+// (bound-method) closure, a phi of them, or a local / captured func variable
+// all of whose stores resolve. unknown=true if some possibility does not.
+func (k *c15K) funcTargets(v ssa.Value, depth int) (out []*ssa.Function, unknown bool) {
+	if depth > 6 || v == nil {
+		return nil, true
+	}
+	switch t := v.(type) {
+	case *ssa.Function:
+		return []*ssa.Function{t}, false
+	case *ssa.MakeClosure:
+		if f, ok := t.Fn.(*ssa.Function); ok {
+			return []*ssa.Function{f}, false
+		}
+		return nil, true
+	case *ssa.ChangeType:
+		return k.funcTargets(t.X, depth+1)
+	case *ssa.Phi:
+		for _, e := range t.Edges {
+			if e == ssa.Value(t) {
+				continue
+			}
+			o, u := k.funcTargets(e, depth+1)
+			out = append(out, o...)
+			unknown = unknown || u
+		}
+		return
+	case *ssa.UnOp:
+		if t.Op != token.MUL {
+			return nil, true
+		}
+		cell := c15CellOf(t)
+		if cell == nil {
+			return nil, true
+		}
+		stores, ok := c15CellStores(cell)
+		if !ok || len(stores) == 0 {
+			return nil, true
+		}
+		for _, st := range stores {
+			o, u := k.funcTargets(st.Val, depth+1)
+			out = append(out, o...)
+			unknown = unknown || u
+		}
+		return
+	case *ssa.FreeVar:
+		if b := resolveFreeVar(t); b != nil {
+			return k.funcTargets(b, depth+1)
+		}
+	case *ssa.Const:
+		if t.IsNil() {
+			return nil, false
+		}
+	}
+	return nil, true
+}
+
+// reachesMutation: f (transitively, through static calls, closures and
+// resolvable func values inside the package) can mutate Cache.m.
+func (k *c15K) reachesMutation(f *ssa.Function, seen map[*ssa.Function]bool) bool {
+	f = k.unwrapFn(f)
+	if f == nil || seen[f] || len(f.Blocks) == 0 {
+		return false
+	}
+	seen[f] = true
+	found := false
+	for _, a := range f.AnonFuncs {
+		if k.reachesMutation(a, seen) {
+			found = true
+		}
+	}
+	allInstrs(f, func(in ssa.Instruction) {
+		ci, ok := in.(ssa.CallInstruction)
+		if !ok || found {
+			return
+		}
+		if _, isMap := k.mapCall(in, ""); isMap {
+			switch calleeObj(ci).Name() {
+			case "Get", "ForEach", "Len", "Fillrate", "Grow":
+			default:
+				found = true
+			}
+			return
+		}
+		if ci.Common().IsInvoke() || builtinName(ci) != "" {
+			return
+		}
+		ts := []*ssa.Function{staticCallee(ci)}
+		if ts[0] == nil {
+			ts, _ = k.funcTargets(ci.Common().Value, 0)
+		}
+		for _, h := range ts {
+			if h = k.unwrapFn(h); h != nil && h.Pkg != nil && h.Pkg.Pkg.Path() == k.pkg && k.reachesMutation(h, seen) {
+				found = true
+			}
+		}
+	})
+	return found
 }
 
 // ------------------------------------------------------ U5 Delete / Reset
